@@ -183,7 +183,31 @@ func (e *isoEnv) readers(tc *cache.TableCache, uuid string) map[string]func() mo
 		}
 		return nil
 	}
+	// the same into a slice of struct values ([]T instead of []*T): the element is handed back through its address
+	listV := func(ca interface {
+		List(context.Context, interface{}) error
+	}) model.Model {
+		lst := reflect.New(reflect.SliceOf(e.typ.Elem()))
+		if err := ca.List(context.Background(), lst.Interface()); err != nil {
+			panic(err)
+		}
+		for k := 0; k < lst.Elem().Len(); k++ {
+			el := lst.Elem().Index(k)
+			if el.FieldByName("UUID").String() == uuid {
+				return el.Addr().Interface()
+			}
+		}
+		return nil
+	}
 	rd := map[string]func() model.Model{
+		"api.List[]T":   func() model.Model { return listV(api) },
+		"Where.List[]T": func() model.Model { return listV(api.Where(probe())) },
+		"WhereCache.List[]T": func() model.Model {
+			fn := reflect.MakeFunc(reflect.FuncOf([]reflect.Type{e.typ}, []reflect.Type{reflect.TypeOf(true)}, false), func(args []reflect.Value) []reflect.Value {
+				return []reflect.Value{reflect.ValueOf(true)}
+			})
+			return listV(api.WhereCache(fn.Interface()))
+		},
 		"Row":  func() model.Model { return t.Row(uuid) },
 		"Rows": func() model.Model { return t.Rows()[uuid] },
 		"RowByModel": func() model.Model {
@@ -231,6 +255,11 @@ func (e *isoEnv) readers(tc *cache.TableCache, uuid string) map[string]func() mo
 			p := probe()
 			fp, val := e.fieldP(p)
 			return list(api.WhereAll(p, model.Condition{Field: fp, Function: ovsdb.ConditionNotEqual, Value: val}))
+		}
+		rd["WhereAll.List[]T"] = func() model.Model {
+			p := probe()
+			fp, val := e.fieldP(p)
+			return listV(api.WhereAll(p, model.Condition{Field: fp, Function: ovsdb.ConditionNotEqual, Value: val}))
 		}
 		rd["WhereAny.List"] = func() model.Model {
 			p := probe()
